@@ -205,3 +205,81 @@ package trace
 //@   loop 0 invariant len(conflictTags) != 0
 //@   loop 0 invariant done: forall k :: 0 <= k && k < range_i ==> b.tags[k].name == ite(haskey(conflictTags, old(b.tags[k].name)), typedName(old(b.tags[k].name), byte(b.tags[k].valueType)), old(b.tags[k].name))
 //@   loop 0 invariant todo: forall k :: range_i <= k && k < len(b.tags) ==> b.tags[k].name == old(b.tags[k].name)
+//
+//@ section C13
+//
+// The dropped-trace-id set (open addressing, linear probing). keepEncoded is what decides, for the secondary index and for
+// the parts being merged, whether an entry belongs to a sampled-out trace.
+//@ decl func hashOfBytes(b []byte) uint64
+//@ func convert.Hash
+//@   assumed xxhash of the bytes: a function of their content (uninterpreted)
+//@   pure
+//@   ensures result == hashOfBytes(key)
+//@ func convert.StringToBytes
+//@   assumed zero-copy view of the string's bytes
+//@   pure
+//@   ensures len(result) == len(s) && (forall j :: 0 <= j && j < len(s) ==> result[j] == s[j])
+//@ spec func slotEntry(h uint64, k int) uint64 = (uint64(uint32(h >> 32)) << 32) | uint64(uint32(k + 1))
+//@ spec func probeDist(s uint64, h uint64, mask uint64) uint64 = (s - (h & mask)) & mask
+// the table is a power of two >= 2 and every occupied slot names an id that exists
+//@ spec func tableOK(d *droppedTraceIDs) bool = d != nil && len(d.slots) >= 2 && (uint64(len(d.slots)) & (uint64(len(d.slots)) - 1)) == 0 && len(d.ids) < 4294967295 &&
+//@     (forall s :: 0 <= s && s < len(d.slots) && d.slots[s] != 0 ==> 1 <= uint32(d.slots[s]) && int(uint32(d.slots[s])) <= len(d.ids))
+//
+//@ func indexSlotCount
+//@   assumed table size for n ids (only reached when the index has not been built yet)
+//@   pure
+//@ func convert.HashStr
+//@   assumed xxhash of the string (only reached when the index has not been built yet)
+//@   pure
+//@ func droppedTraceIDs.buildIndex
+//@   mode bv
+//@   requires dropped != nil && len(dropped.slots) > 0
+//@   modifies dropped.slots
+//@   ensures  already-built-is-left-alone: samehdr(dropped.slots, old(dropped.slots)) && (forall s :: 0 <= s && s < len(dropped.slots) ==> dropped.slots[s] == old(dropped.slots[s]))
+//@   loop 0 invariant true
+//@   loop 1 invariant true
+//
+// two facts about probe distances in a table of 2^m slots (proved on 64-bit vectors)
+//@ lemma probeDistInjective(s uint64, p uint64, h uint64, n uint64)
+//@   mode bv
+//@   requires n >= 2 && (n & (n - 1)) == 0 && s < n && p < n && probeDist(s, h, n - 1) == probeDist(p, h, n - 1)
+//@   ensures  s == p
+//@ lemma probeDistStep(s uint64, p uint64, h uint64, n uint64)
+//@   mode bv
+//@   requires n >= 2 && (n & (n - 1)) == 0 && s < n && p < n && probeDist(s, h, n - 1) < probeDist(p, h, n - 1)
+//@   ensures  probeDist((s + 1) & (n - 1), h, n - 1) == probeDist(s, h, n - 1) + 1 && ((s + 1) & (n - 1)) < n
+//@ lemma slotEntryParts(h uint64, k int)
+//@   mode bv
+//@   requires 0 <= k && k < 4294967295
+//@   ensures  uint32(slotEntry(h, k)) == uint32(k + 1) && uint32(slotEntry(h, k) >> 32) == uint32(h >> 32) && slotEntry(h, k) != 0 && int(uint32(k + 1)) == k + 1
+//
+// (1) soundness, on any well-formed table: an entry is reported as dropped only if its id is one of the recorded ids.
+//@ func droppedTraceIDs.keepEncoded
+//@   mode bv
+//@   requires dropped == nil || (len(dropped.slots) > 0 && tableOK(dropped))
+//@   modifies dropped.slots
+//@   ensures  drops-only-recorded-ids: !result ==> dropped != nil && len(data) > 0 && (exists k :: 0 <= k && k < len(dropped.ids) && len(dropped.ids[k]) == len(data) - 1 && (forall j :: 0 <= j && j < len(data) - 1 ==> dropped.ids[k][j] == data[1+j]))
+//@   loop 0 invariant slotIdx < uint64(len(dropped.slots)) && mask == uint64(len(dropped.slots)) - 1 && tableOK(dropped) && sameobj(traceID, data) && off(traceID) == off(data) + 1 && len(traceID) == len(data) - 1
+//
+// (2) completeness, for every recorded id (the ghosts droppedK / probeSlot are arbitrary): if id number droppedK sits in
+// slot probeSlot and every slot on the probe path from its home slot up to there is occupied - which is what insertion by
+// linear probing into a table with a free slot leaves behind (buildIndex itself is not under contract) - then an entry
+// carrying that id is reported as dropped. The probe must therefore walk on over occupied slots that hold other ids.
+// Assumption made explicit: HashStr(id) = Hash(bytes of id) (both are xxhash of the same bytes).
+//@ ghost var droppedK int
+//@ ghost var probeSlot uint64
+//@ func droppedTraceIDs.keepEncoded#finds-every-recorded-id
+//@   mode int
+//@   uses probeDistInjective probeDistStep slotEntryParts
+//@   opt split-returns
+//@   requires dropped != nil && len(dropped.slots) > 0 && tableOK(dropped) && len(data) > 0 && data[0] == 1
+//@   requires the-id-is-recorded: 0 <= droppedK && droppedK < len(dropped.ids) && len(dropped.ids[droppedK]) == len(data) - 1 && (forall j :: 0 <= j && j < len(data) - 1 ==> dropped.ids[droppedK][j] == data[1+j])
+//@   requires it-sits-in-probeSlot: probeSlot < uint64(len(dropped.slots)) && dropped.slots[probeSlot] == slotEntry(hashOfBytes(data[1:]), droppedK)
+//@   requires its-probe-path-is-occupied: forall s uint64 :: s < uint64(len(dropped.slots)) && probeDist(s, hashOfBytes(data[1:]), uint64(len(dropped.slots)) - 1) < probeDist(probeSlot, hashOfBytes(data[1:]), uint64(len(dropped.slots)) - 1) ==> dropped.slots[s] != 0
+//@   modifies dropped.slots
+//@   at-stmt "stored := dropped.slots[slotIdx]" requires same-distance-same-slot: probeDist(slotIdx, traceHash, mask) == probeDist(probeSlot, traceHash, mask) ==> slotIdx == probeSlot
+//@   at-stmt "stored := dropped.slots[slotIdx]" requires the-recorded-entry-is-not-empty: dropped.slots[probeSlot] != 0 && uint32(dropped.slots[probeSlot]) == uint32(droppedK + 1) && uint32(dropped.slots[probeSlot] >> 32) == uint32(traceHash >> 32)
+//@   at-stmt "stored := dropped.slots[slotIdx]" requires an-earlier-slot-is-occupied: probeDist(slotIdx, traceHash, mask) < probeDist(probeSlot, traceHash, mask) ==> dropped.slots[slotIdx] != 0
+//@   ensures  a-recorded-id-is-reported-as-dropped: !result
+//@   loop 0 invariant slotIdx < uint64(len(dropped.slots)) && mask == uint64(len(dropped.slots)) - 1 && traceHash == hashOfBytes(data[1:]) && sameobj(traceID, data) && off(traceID) == off(data) + 1 && len(traceID) == len(data) - 1
+//@   loop 0 invariant not-past-the-slot: probeDist(slotIdx, traceHash, mask) <= probeDist(probeSlot, traceHash, mask)
